@@ -5,7 +5,7 @@ import world as WD
 from rules import shared, c14
 
 
-def run(ctx, w):
+def _run(ctx, w):
     S = shared.screen(w)
     R = shared.roles(w)
     E = w.E
@@ -241,3 +241,11 @@ def growth_flag_rule(ctx, w, S, R, T, rule):
                   loc=w.fn_loc(fn), sample={"fn": fn, "transferred_to": sorted({c.body for c in callers})})
     ctx.floor(rule, 3, "growth sites")
 
+
+
+def run(ctx, w):
+    _run(ctx, w)
+    # which mode numbers switch screens (47 / 1047 / 1049) and which finals scroll is part of the statement: the control
+    # functions must be decoded as specified
+    from rules import c03
+    shared.embed(ctx, w, c03.dispatch_rules)
